@@ -5,6 +5,7 @@ from kv import *
 from jobs import *
 from pipeline import trace_check
 import mc
+import replay
 
 TIER = "quick"
 
@@ -49,7 +50,7 @@ def key_ops(prog, front, hs):
     return out
 
 
-HS = {"k": (1, 2), "k1": (1, 2), "k2": (3, 4), "k3": (5, 9)}   # k/k1 -> shards (0,1); k2 -> (1,0); k3 -> (0,1)
+HS = {"k": (1, 2), "k1": (1, 2), "k2": (7, 4), "k3": (5, 9)}   # with two shards: k/k1 -> (0,1); k2 -> (1,0); k3 -> (0,1)   (jobs.shard_ids)
 
 
 def conc_job(jid, fam, front, progs, explore, draw=NEVER, prefill=(), mkdirs_extra=(), presetup=True, adv=None, solo=None, cfg_extra=None):
@@ -171,6 +172,7 @@ def coverage_mc(tot, design, rule, extra=None):
                drift_first_event=(tot.get("drifts") or [None])[0],
                monitor_antecedents=tot.get("mstats", {}),
                shared_pool=tot.get("pool"),
+               model_behaviours_replayed=tot.get("replay"),
                design_level=[dict(cfg=d["cfg"], states=d["states"], transitions=d["transitions"], ok=d["ok"],
                                   never_taken=d.get("never_taken", []), wall_s=round(d.get("wall", 0), 1)) for d in design])
     if extra:
@@ -312,6 +314,20 @@ def add_pool(work, out, st, mons, want=("seq", "conc"), tag="pool"):
     return st
 
 
+def add_replay(work, out, st, mons, num, names=None, tag="rp"):
+    """Behaviours generated by TLC from Kismet.tla, replayed into the real library (driver/replay.py), judged by this
+    property's monitors; what was covered is added to the check's statistics."""
+    st2 = replay.replay_check(work, out, mons, num, names=names, seed=seed(), tag=tag)
+    for k in ("runs", "events", "states", "violations", "fsmodel_mismatches", "conf_ops"):
+        st[k] = st.get(k, 0) + st2.get(k, 0)
+    st["drifts"] = st.get("drifts", []) + st2.get("drifts", [])
+    for k, v in (st2.get("mstats") or {}).items():
+        st.setdefault("mstats", {})
+        st["mstats"][k] = st["mstats"].get(k, 0) + v
+    st["replay"] = st2["replay"]
+    return st
+
+
 def pool_check(work, out, mons, want=("seq", "conc"), tag="pool", nseq=None, nconc=None):
     """Validates the shared pool with this property's own monitors."""
     return trace_check(work, out, pool_jobs(want=want, nseq=nseq, nconc=nconc), mons, tag=tag)
@@ -346,6 +362,7 @@ def check_C01(work):
     mons = ["DirValid", "HandleContentOK", "Immutable"]
     st = trace_check(work, out, jobs, mons, tag="c01", conform=True)
     st = add_pool(work, out, st, ["DirValid", "HandleContentOK", "Immutable"])
+    st = add_replay(work, out, st, mons, Q(40, 600), names=["RPplain", "RPmaint", "RPnodirs", "RPshard", "RPstack", "RPpromote"])
     design = design_runs(work, out, Q(["MCplain2q", "MCshard1", "MCstack2"], ["MCplain2q", "MCplain2", "MCshard1", "MCshard2", "MCstack2", "MCstack3"]))
     cov = coverage_mc(st, design,
                       "schedules of 2-3 participants explored by preemption-bounded DFS / seeded random at system-call granularity; "
@@ -397,6 +414,7 @@ def check_C05(work):
     mons = ["NoErr", "DirValid"]
     st = trace_check(work, out, jobs, mons, tag="c05", conform=True)
     st = add_pool(work, out, st, ["NoErr"])
+    st = add_replay(work, out, st, ["NoErr", "DirValid"], Q(40, 600), names=["RPplain", "RPmaint", "RPnodirs", "RPshard", "RPstack", "RPpromote"])
     design = design_runs(work, out, Q(["MCtouchput", "MCadv", "MCshard1", "MCstack3"], ["MCtouchput", "MCadv", "MCplain2", "MCclean", "MCshard2", "MCstack2", "MCstack3"]))
     cov = coverage_mc(st, design,
                       "capacity-1 caches (every write maintains), missing directories, adversarial deletions of published files at each scheduler step; "
@@ -478,6 +496,28 @@ def check_C16(work):
                     prog.append(o)
                 jobs.append(seq_job("C16-%s-%s-%d" % (fname, api, i), "%s:%s" % (fname, api), cache, prog, world=world,
                                     mkdirs=("SRC", "TMP", "outer")))
+    # a rejected call must not even run maintenance: tiny caches that are over capacity and hold stale temp files, trigger always firing
+    bad = [nm for nm in names if nm == "" or nm[0] in "./\\" or "/" in nm]
+    rng.shuffle(bad)
+    bad = ["", "/abs", "a/b", ".x"] + bad[:Q(8, 60)]
+    for fname, cache, dirs in (("plain", plain("outer/W", 3), ["outer/W"]),
+                               ("sharded", sharded("outer/W", 2, 2), ["outer/W/.kismet_0000", "outer/W/.kismet_0001"]),
+                               ("stack", stack(plain("outer/W", 3), [plain("outer/R")], "none", True), ["outer/W"])):
+        w2 = list(world)
+        for d in dirs:
+            for i in range(5):
+                w2.append(op("mkfile", path="@TOP@/%s/f%d" % (d, i), key="f%d" % i, val="old%d" % i, chunks=1, w=0, mode=0o444,
+                             mt_ago=900.0 - i, at_ago=1020.0 - i))
+            w2.append(op("mkfile", path="@TOP@/%s/.kismet_temp/stale" % d, raw="x", mt_ago=9000.0, at_ago=9000.0))
+        apis = ["set", "put", "get", "touch"] + (["ensure", "set_tf", "put_tf"] if fname == "stack" else [])
+        for api in apis:
+            prog = []
+            for nm in bad:
+                o = op(api, nm)
+                o["hash"], o["sec"] = "1", "2"
+                prog.append(o)
+            jobs.append(seq_job("C16-%s-%s-maint" % (fname, api), "%s:%s:maintenance-pending" % (fname, api), cache, prog, world=w2,
+                                draw=ALWAYS, mkdirs=("SRC", "TMP", "outer")))
     mons = ["ConfinedStrict", "RejectedOK", "RejectedNoEffect", "OutsideUntouched", "DirValid"]
 
     def key_of(job, mon, ev, evs):
@@ -745,6 +785,8 @@ def check_C02(work):
         inj = (evs[0].get("cfg") or {}).get("inject") or {}
         return "%s@%s@before-%s" % (mon, job.get("fam"), inj.get("call", "none"))
     st = trace_check(work, out, jobs, mons, tag="c02", key_of=key_of)
+    # behaviours of Kismet.tla with one crash anywhere, replayed into the real library
+    st = add_replay(work, out, st, ["DirValid", "DebrisConfined", "ReadOnlyFirst", "Immutable"], Q(150, 1500), names=["RPcrash", "RPcrashm"])
     design = design_runs(work, out, Q(["MCcrashq"], ["MCcrashq", "MCcrash"]))
     ms = st.get("mstats", {})
     cov = dict(evaluations=st["runs"], distinct_nontrivial=ms.get("crashes", 0),
@@ -754,6 +796,7 @@ def check_C02(work):
                     "the kill was actually delivered mid-operation (counted by the trace specification).",
                samples=st["samples"][:3], scenarios=[s[0] for s in scs], monitors=mons, trace_events_validated=st["events"],
                states=st["states"], fsmodel_mismatches=st["fsmodel_mismatches"], monitor_antecedents=ms,
+               model_behaviours_replayed=st.get("replay"),
                design_level=[dict(cfg=d["cfg"], states=d["states"], transitions=d["transitions"], ok=d["ok"]) for d in design])
     return finish("C02", out, t0, "fault_enumeration", cov, BASE_ASSUME + ["process crash (SIGKILL), not power loss"])
 
@@ -1264,7 +1307,9 @@ def check_C12(work):
         for i in range(0, len(vs), per):
             grp = vs[i:i + per]
             root_ = "W%d" % n
-            cache = sharded(root_, n, 1000000)
+            # the mapping depends on (hash, secondary hash, shard count) only: also with a total capacity below the shard count
+            capn = [1000000, 1, max(1, n - 1), max(1, n // 2), 2][(i // per) % 5]
+            cache = sharded(root_, n, capn)
             prog = []
             for k, (h, s2, _) in enumerate(grp):
                 key = "key%d" % (i + k)
@@ -1275,7 +1320,8 @@ def check_C12(work):
                 prog.append(dict(op("get", key), h=0, expect="hit", **extra))               # a long-lived handle whose estimates have diverged
                 prog.append(dict(op("put", "other%d" % (i + k), "w", hash=str(rng.getrandbits(64)), sec=str(rng.getrandbits(64))), h=0))
             jid += 1
-            j = seq_job("C12-%d-%d" % (n, i), "n=%d" % n, cache, prog, roots=[root(root_, "sharded", "w")])
+            j = seq_job("C12-%d-%d" % (n, i), "n=%d%s" % (n, "" if capn == 1000000 else ":capacity<shards" if capn < n else ":small-capacity"), cache, prog,
+                        roots=[root(root_, "sharded", "w")])
             j["snap"] = "none"
             jobs.append(j)
     tfiles = run_tracer(work, jobs, tag="c12")
@@ -1495,6 +1541,24 @@ def check_C09(work):
                 if emul:
                     j["emul"] = emul
                 jobs.append(j)
+    # a lookup marks the entry even when its queue position is ahead of the reader's clock (stamped by a writer whose clock runs fast):
+    # the re-touch copies the entry's own mtime, it does not stamp "now"
+    for ename, em in emuls:
+        for fname, cache, keys in fronts_:
+            k, (h, s2) = keys[0]
+            a, b = shard_ids(h, s2, 2) if fname == "sharded" else (0, 0)
+            d = shard_dir("W", a) if fname == "sharded" else "W"
+            hk = dict(hash=str(h), sec=str(s2))
+            pre = [op("set", k, "ahead", **hk), op("set", "other", "o", **hk)]
+            world = [op("utimes", path="@TOP@/%s/%s" % (d, k), mt_ago=-300.0, at_ago=-180.0)]
+            prog = [op("get", k, **hk), op("get", "other", **hk), op("get", k, **hk)]
+            cfg = {"roots": roots_of(cache), "front": cache["kind"], "cap": 1000000, "seq": True}
+            j = job("C09-ahead-%s-%s" % (ename, fname),
+                    [seq_stage(part(8, cache, with_vals(pre, 8), NEVER)), seq_stage(part(9, plain("SRC/none"), world, NEVER)),
+                     seq_stage(part(1, cache, prog, NEVER))], cfg, None, fam="%s:%s:mtime-ahead-of-clock" % (ename, fname))
+            if em:
+                j["emul"] = dict(em)
+            jobs.append(j)
     mons = ["ReadMarks", "FreshOnWrite", "SeqMapOK", "DirValid", "Immutable"]
     st = trace_check(work, out, jobs, mons, tag="c09")
     st = add_pool(work, out, st, ["ReadMarks", "FreshOnWrite"], want=('seq',))
@@ -1550,6 +1614,31 @@ def check_C20(work):
         stages = [seq_stage(part(9, plain("SRC/none"), world, NEVER)),
                   seq_stage(dict(part(1, handles[0], with_vals(prog, 1), NEVER), handles=handles))]
         j = job("C20-%s" % fname, stages, {"front": fname, "checker": ck}, None, fam=fname)
+        j["snap"] = "none"
+        jobs.append(j)
+    # lookups under a failing open (a stale or vanished entry is a miss, not a reason to try again): the bounds hold on the error paths too
+    a1, b1 = shard_ids(1, 2, 2)
+    for fname in ("plain", "sharded", "stacksh"):
+        world = []
+        if fname == "plain":
+            cache = plain("D", 10000000)
+            world.append(op("mkfile", path="@TOP@/D/k", key=k, val="same", chunks=1, w=1, mode=0o444, mt_ago=500.0, at_ago=620.0))
+        else:
+            cache = sharded("D", 2, 20000000)
+            world.append(op("mkdir", path="@TOP@/" + shard_dir("D", a1)))
+            world.append(op("mkfile", path="@TOP@/%s/k" % shard_dir("D", b1), key=k, val="same", chunks=1, w=1, mode=0o444, mt_ago=500.0, at_ago=620.0))
+            if fname == "stacksh":
+                world.append(op("mkdir", path="@TOP@/" + shard_dir("R", a1)))
+                world.append(op("mkfile", path="@TOP@/%s/kr" % shard_dir("R", b1), key="kr", val="same", chunks=1, w=1, mode=0o444, mt_ago=500.0, at_ago=620.0))
+                cache = stack(cache, [{"kind": "sharded", "dir": "@TOP@/R", "shards": 2}], "none")
+        prog = [dict(op("get", k, **H), grp="get-hit"), dict(op("get", "absent", **H), grp="get-miss"),
+                dict(op("touch", k, **H), grp="touch-hit"), dict(op("touch", "absent", **H), grp="touch-miss")]
+        if fname == "stacksh":
+            prog += [dict(op("get", "kr", **H), grp="get-ro-hit"), dict(op("touch", "kr", **H), grp="touch-ro-hit")]
+        v = seq_stage(part(1, cache, prog, NEVER))
+        v["victim"] = True
+        j = job("C20-fault-%s" % fname, [seq_stage(part(9, plain("SRC/none"), world, NEVER)), v], {"front": fname, "checker": "none"},
+                {"kind": "fault", "part": 1, "runs": 200, "errnos": {"open": ["ESTALE", "ENOENT"], "*": []}}, fam=fname + ":failing-open")
         j["snap"] = "none"
         jobs.append(j)
     tfiles = run_tracer(work, jobs, tag="c20")
@@ -1672,18 +1761,26 @@ def check_conformance(work):
     run_control("drop-utimens", [e for e in one if not (e.get("e") == "sys" and e.get("call") == "utimens" and e.get("ph") == "lib")])
     run_control("unmodified", one)
     bad_controls = [k for k, v in controls.items() if (k == "unmodified") == v]
+    # (4) binding R: model behaviours replayed into the real library must be reproduced call by call
+    rst = replay.replay_check(work, out, ["DirValid"], Q(60, 800), seed=seed(), tag="cfr")
+    rp = rst["replay"]
+    drifts += rst.get("drifts", [])
     covered = model_edges & real_edges
     nruns, nev = count_runs(files)
     cov = dict(states=max(1, sum(r["states"] for r in fsm)), transitions=max(1, nev), traces_validated_against_impl=nruns,
                samples=[sorted(list(model_edges - real_edges))[:10]],
                model_edges=len(model_edges), real_edges=len(real_edges), model_edges_taken_by_real_code=len(covered),
                model_edges_not_taken=sorted(list(model_edges - real_edges)), real_edges_not_reached_by_simulation=sorted(list(real_edges - model_edges)),
-               ops_conforming_to_Kismet_tla=ops, drifts=drifts[:5], fsmodel_mismatches=fsmis, negative_controls=controls)
+               ops_conforming_to_Kismet_tla=ops, drifts=drifts[:5], fsmodel_mismatches=fsmis, negative_controls=controls,
+               model_behaviours_replayed=rp)
     write_evidence("conformance", TIER, "model_checking", cov, time.time() - t0, 0, BASE_ASSUME)
     print("conformance: %d/%d model edges taken by real executions; %d real edges; %d ops conform; drift=%d fsmis=%d controls=%s" %
           (len(covered), len(model_edges), len(real_edges), ops, len(drifts), fsmis, controls))
-    if drifts or fsmis or bad_controls:
-        raise ToolError("conformance self-check failed: drifts=%s fsmis=%s controls=%s" % (drifts[:2], fsmis, bad_controls))
+    print("replay: %d behaviours generated by TLC, %d replayed, %d reproduced call by call, %d diverged" %
+          (rp["behaviours"], rp["replayed"], rp["reproduced"], rp["diverged"]))
+    if drifts or fsmis or bad_controls or rp["diverged"]:
+        raise ToolError("conformance self-check failed: drifts=%s fsmis=%s controls=%s replay divergences=%s" %
+                        (drifts[:2], fsmis, bad_controls, rp["first_divergences"][:2]))
     return 0
 
 
